@@ -1,5 +1,6 @@
 (** C07 — executable model of the selection configurations and of the protocol-level [select]:
-    pybrops/breed/prot/sel/cfg/{Subset,Real,Integer,Binary,SubsetMate}SelectionConfiguration.sample_xconfig,
+    pybrops/breed/prot/sel/cfg/{Subset,Real,Integer,Binary,SubsetMate,IntegerMate}SelectionConfiguration.sample_xconfig,
+    pybrops/breed/prot/sel/SelectionProtocol nmating / nprogeny setters vs cfg/SelectionConfiguration's,
     pybrops/core/util/array.py: triuix / triudix / xmapix,
     pybrops/breed/prot/sel/{Subset,Real,Integer,Binary,SubsetMate}SelectionProtocol.select
       (problem -> optimiser -> solution -> configuration, with the multi-objective argmax choice),
@@ -52,7 +53,10 @@ Fixpoint rep_from (i : nat) (x : list Z) : list Z :=
 (** numpy.repeat raises for a negative count *)
 Definition rep_options (x : list Z) : option (list Z) :=
   if existsb (fun c => c <? 0)%Z x then None else Some (rep_from 0 x).
-Definition cfg_integer (ncross nparent : nat) (decn : list Z) (choice perm : list nat) (pms : list (list nat))
+
+(** ** 3a. tiled_choice(options, (ncross,nparent), replace=False): the code of BinarySelectionConfiguration, and of
+       IntegerSelectionConfiguration before commit e5bdc2c0 *)
+Definition cfg_repeat_tiled (ncross nparent : nat) (decn : list Z) (choice perm : list nat) (pms : list (list nat))
   : option (list Z) :=
   if shape_ok ncross nparent then
     match rep_options decn with
@@ -64,11 +68,41 @@ Definition cfg_integer (ncross nparent : nat) (decn : list Z) (choice perm : lis
         end
     end
   else None.
-(** BinarySelectionConfiguration: same code; the setter additionally requires every entry to be 0 or 1 *)
+(** the former integer configuration (kept only to state what was wrong with it) *)
+Definition old_cfg_integer := cfg_repeat_tiled.
+(** BinarySelectionConfiguration: the setter additionally requires every entry to be 0 or 1 *)
 Definition is_binary (x : list Z) : bool := forallb (fun c => Z.eqb c 0 || Z.eqb c 1) x.
 Definition cfg_binary (ncross nparent : nat) (decn : list Z) (choice perm : list nat) (pms : list (list nat))
   : option (list Z) :=
-  if is_binary decn then cfg_integer ncross nparent decn choice perm pms else None.
+  if is_binary decn then cfg_repeat_tiled ncross nparent decn choice perm pms else None.
+
+(** ** 3b. IntegerSelectionConfiguration (since commit e5bdc2c0): stochastic universal sampling in integer arithmetic
+         noption = len(options); nsample = ncross*nparent; start = rng.choice(noption)
+         out = options[(start + noption*arange(nsample)) // nsample]; rng.shuffle(out)
+       [start] is the scripted answer of rng.choice(noption) *)
+Definition sys_ix (n t start : nat) : list nat := map (fun j => (start + n * j) / t)%nat (seq 0 t).
+(** None: rng.choice(0) raises for an empty option array; a start beyond the array would be an IndexError
+    (the last pointer is then at or beyond noption) *)
+Definition sys_choice (opts : list Z) (t start : nat) : option (list Z) :=
+  if Nat.ltb start (length opts) then Some (take_labels opts (sys_ix (length opts) t start)) else None.
+(** the sample after rng.shuffle(out) (before the outcross descent) *)
+Definition cfg_integer_sample (ncross nparent : nat) (decn : list Z) (start : nat) (perm : list nat) : option (list Z) :=
+  match rep_options decn with
+  | None => None
+  | Some opts =>
+      match sys_choice opts (ncross * nparent) start with
+      | None => None
+      | Some s => if Nat.eqb (length perm) (ncross * nparent) then Some (permute 0%Z perm s) else None
+      end
+  end.
+Definition cfg_integer (ncross nparent : nat) (decn : list Z) (start : nat) (perm : list nat) (pms : list (list nat))
+  : option (list Z) :=
+  if shape_ok ncross nparent then
+    match cfg_integer_sample ncross nparent decn start perm with
+    | None => None
+    | Some x => xc_tail ncross nparent x pms
+    end
+  else None.
 
 (** * 4. RealSelectionConfiguration: stochastic_universal_sampling(arange(n), decn, (ncross,nparent)) *)
 Definition zs (l : list nat) : list Z := map Z.of_nat l.
@@ -114,6 +148,34 @@ Definition cfg_mate (ncross nparent : nat) (decn : list Z) (xmap : list (list Z)
     match tiled_choice decn ncross false choice perm with
     | None => None
     | Some x => if Nat.eqb (length perm2) ncross then xmap_rows xmap (permute 0%Z perm2 x) else None
+    end
+  else None.
+
+(** IntegerMateSelectionConfiguration (since commit 35c78bef): the same integer sampling over the repeated cross indices,
+      out = options[(start + noption*arange(ncross)) // ncross]; rng.shuffle(out); xconfig = xmap[out,:] *)
+Definition cfg_integer_mate (ncross nparent : nat) (decn : list Z) (xmap : list (list Z)) (start : nat) (perm : list nat)
+  : option (list (list Z)) :=
+  if shape_ok ncross nparent && xmap_ok nparent xmap then
+    match rep_options decn with
+    | None => None
+    | Some opts =>
+        match sys_choice opts ncross start with
+        | None => None
+        | Some s => if Nat.eqb (length perm) ncross then xmap_rows xmap (permute 0%Z perm s) else None
+        end
+    end
+  else None.
+(** the former code: tiled_choice over the repeated cross indices, then the shuffle *)
+Definition old_cfg_integer_mate (ncross nparent : nat) (decn : list Z) (xmap : list (list Z)) (choice perm perm2 : list nat)
+  : option (list (list Z)) :=
+  if shape_ok ncross nparent && xmap_ok nparent xmap then
+    match rep_options decn with
+    | None => None
+    | Some opts =>
+        match tiled_choice opts ncross false choice perm with
+        | None => None
+        | Some x => if Nat.eqb (length perm2) ncross then xmap_rows xmap (permute 0%Z perm2 x) else None
+        end
     end
   else None.
 
@@ -190,6 +252,36 @@ Definition select_mo {D C} (wt : Q) (trans : list (list Q) -> list Q) (front : l
   | None => None
   | Some d => match cfg d with None => None | Some c => Some (d, c) end
   end.
+
+(** * 10. nmating / nprogeny: an Integral (broadcast to ncross entries) or a 1-d integer array.
+      SelectionConfiguration's setters: Integral > 0; array of length ncross with all entries > 0.
+      SelectionProtocol's setters (since commits fcb030f4, 8be05ab5): the same checks.  Before, the protocol accepted
+      Integral >= 0 and any integer array with all entries >= 0, and select() failed after the optimisation. *)
+Inductive matpar := MScalar (v : Z) | MArray (a : list Z).
+Definition matpar_cfg_ok (ncross : nat) (m : matpar) : bool :=
+  match m with
+  | MScalar v => (0 <? v)%Z
+  | MArray a => Nat.eqb (length a) ncross && forallb (fun v => (0 <? v)%Z) a
+  end.
+Definition matpar_proto_ok (ncross : nat) (m : matpar) : bool :=
+  match m with
+  | MScalar v => (0 <? v)%Z
+  | MArray a => Nat.eqb (length a) ncross && forallb (fun v => (0 <? v)%Z) a
+  end.
+Definition old_matpar_proto_ok (ncross : nat) (m : matpar) : bool :=
+  match m with
+  | MScalar v => (0 <=? v)%Z
+  | MArray a => forallb (fun v => (0 <=? v)%Z) a
+  end.
+(** the stored value *)
+Definition matpar_value (ncross : nat) (m : matpar) : list Z :=
+  match m with MScalar v => repeat v ncross | MArray a => a end.
+(** the constructor of a selection protocol accepts its cross-design arguments *)
+Definition proto_args_ok (ncross nparent : nat) (nmating nprogeny : matpar) : bool :=
+  shape_ok ncross nparent && matpar_proto_ok ncross nmating && matpar_proto_ok ncross nprogeny.
+(** the constructor of a selection configuration accepts them *)
+Definition cfg_args_ok (ncross nparent : nat) (nmating nprogeny : matpar) : bool :=
+  shape_ok ncross nparent && matpar_cfg_ok ncross nmating && matpar_cfg_ok ncross nprogeny.
 
 (** * comparison helpers for the correspondence shards *)
 Definition natll_eqb := list_eqb natl_eqb.
